@@ -455,6 +455,7 @@ func runSoloCapped(st *trie.SlimTrie, u *Unit) (string, int64) {
 	})
 	out := u.run(st, nil)
 	setHook(nil)
+	ambBetweenCalls()
 	return out, n
 }
 
